@@ -233,6 +233,7 @@ func postCloseUse(r *core.Run) []core.Finding {
 	type closer struct {
 		kind  core.OpKind
 		scope int
+		call  int64
 		ret   int64
 		op    int
 	}
@@ -245,7 +246,7 @@ func postCloseUse(r *core.Run) []core.Finding {
 		}
 		switch op.Kind {
 		case core.OpClose, core.OpCancel, core.OpCloseProvider:
-			closers = append(closers, closer{op.Kind, op.Scope, res.Ret, res.Op})
+			closers = append(closers, closer{op.Kind, op.Scope, res.Call, res.Ret, res.Op})
 		}
 	}
 	affects := func(c closer, t int) bool {
@@ -273,17 +274,45 @@ func postCloseUse(r *core.Run) []core.Finding {
 		if op.Kind != core.OpGet && op.Kind != core.OpGetGroup && op.Kind != core.OpCreate {
 			continue
 		}
-		for _, c := range closers {
-			if c.ret < res.Call && affects(c, op.Scope) {
-				how := "Close"
-				if c.kind == core.OpCancel {
-					how = "context cancellation (awaited)"
-				} else if c.kind == core.OpCloseProvider {
-					how = "provider.Close"
+		// (a) a closing call on this very scope has returned: the scope refuses use, whoever
+		// performs the disposal. (b) a closing call on an ancestor / the provider has returned AND
+		// no closing call affecting this scope that was issued before this operation is still
+		// running: the call that performs the cascade has returned, so the descendants are closed.
+		// (A Close that finds the scope already being closed by another goroutine may return
+		// before that goroutine has reached the descendants; the statement promises nothing
+		// about them at that moment.)
+		var hit *closer
+		inFlight := false
+		for k := range closers {
+			c := &closers[k]
+			if c.kind == core.OpCancel && c.call < res.Call && c.scope != op.Scope {
+				// a cancelled ancestor: its watcher goroutine closes the descendants
+				// asynchronously, and a Close that meets that watcher does not wait for it
+				for a := r.ScopeHandle(op.Scope).Parent; a > 0; a = r.ScopeHandle(a).Parent {
+					if a == c.scope {
+						inFlight = true
+					}
 				}
-				fs = append(fs, core.Finding{Clause: "use-after-close-accepted", Sig: opKindName(op) + ":after-" + strings.ReplaceAll(how, " ", "-"), Detail: fmt.Sprintf("op%d %s succeeded although op%d (%s affecting that scope) had already returned (seq %d < %d)", res.Op, op.String(), c.op, how, c.ret, res.Call)})
-				break
 			}
+			if !affects(*c, op.Scope) {
+				continue
+			}
+			if c.call < res.Call && c.ret > res.Call {
+				inFlight = true
+			}
+			if c.ret < res.Call && (hit == nil || c.scope == op.Scope) {
+				hit = c
+			}
+		}
+		if hit != nil && (hit.scope == op.Scope && hit.kind != core.OpCloseProvider || !inFlight) {
+			c := hit
+			how := "Close"
+			if c.kind == core.OpCancel {
+				how = "context cancellation (awaited)"
+			} else if c.kind == core.OpCloseProvider {
+				how = "provider.Close"
+			}
+			fs = append(fs, core.Finding{Clause: "use-after-close-accepted", Sig: opKindName(op) + ":after-" + strings.ReplaceAll(how, " ", "-"), Detail: fmt.Sprintf("op%d %s succeeded although op%d (%s affecting that scope) had already returned (seq %d < %d)", res.Op, op.String(), c.op, how, c.ret, res.Call)})
 		}
 	}
 	return fs
